@@ -61,7 +61,7 @@ pub static INFO: PropInfo = PropInfo {
 };
 
 pub fn run(ctx: &Ctx, out: &mut Outcome) {
-    super::run_loop(ctx, out, 4000, 400_000, 5, one_run);
+    super::run_loop(ctx, out, 12_000, 600_000, 5, one_run);
 }
 
 struct Tok {
